@@ -5,8 +5,9 @@
     (Model/PromFrag.v).  Theorems hold for every expression of the fragment, every database, every result the
     semantics admits, and every behaviour of math.Mod/math.Pow ([fmod], [fpow] are universally quantified). *)
 From Coq Require Import List String Bool Floats NArith.
-From PintV Require Import Common.Bytes Gen.C04 Model.PromQL Model.Source Model.PromSem Model.PromFrag
-  Proofs.C04_lists Proofs.C04_transfer Proofs.C04_walk Proofs.C04_sound Proofs.C04_calls Proofs.C04_binops Proofs.C04_main.
+From PintV Require Import Common.Bytes Gen.C04 Model.PromQL Model.Source Model.PromSem Model.PromFrag Model.PromLive
+  Proofs.C04_lists Proofs.C04_transfer Proofs.C04_walk Proofs.C04_sound Proofs.C04_calls Proofs.C04_binops Proofs.C04_main
+  Proofs.C04_live.
 Import ListNotations.
 Open Scope string_scope.
 Open Scope list_scope.
@@ -41,7 +42,32 @@ Proof.
 Qed.
 Print Assumptions C04_single_branch.
 
-(** The report never fires for a label some live branch... is not claimed: the "live" refinement of the general
+(** The "live branch" refinement (the general clause as DESIGN.md states it) on expressions without constant vectors
+    ([novc]: no [vector(...)], no time function without argument, at most one vector argument per call): every series
+    is consistent with a result branch that is NOT marked dead.  Every dead-marking mechanism of source.go (static
+    comparison folding, [unless on()], right hand side of [or]) needs an always-returning vector operand, and on
+    this fragment no vector-typed branch has AlwaysReturns ([C04_live_branches]).  All witnesses of the liveness
+    classes K1 K2 K6 K7 contain [vector(...)]; the refinement is refuted outside the fragment ([C04_live_refuted]). *)
+Theorem C04_live_branches : forall fmod fpow db e R s,
+  wf e = true -> novc e = true -> Sem db e R -> In s (walk_node fmod fpow e) ->
+  is_vec_or_matrix (s_returns s) = true -> s_always s = false /\ s_dead s = false.
+Proof. intros fmod fpow db e R s Hwf Hn HS Hin Hv. exact (live_branches fmod fpow db e Hwf Hn R HS s Hin Hv). Qed.
+Print Assumptions C04_live_branches.
+
+Theorem C04_sound_live : forall fmod fpow db e R ls,
+  wf e = true -> novc e = true -> Sem db e (RVec R) -> In ls R ->
+  exists s, In s (walk_node fmod fpow e) /\ s_dead s = false /\
+            forall l, can_have_label s l = false -> has ls l = false.
+Proof.
+  intros fmod fpow db e R ls Hwf Hn HS Hin.
+  destruct (walk_sound fmod fpow db e Hwf _ HS) as [I1 I2]. destruct (I2 ls Hin) as [s [Hs HC]].
+  exists s. split; [exact Hs|]. split.
+  - exact (proj2 (live_branches fmod fpow db e Hwf Hn _ HS s Hs (I1 s Hs))).
+  - intros l Hl. destruct (has ls l) eqn:E; auto. rewrite (HC l E) in Hl. discriminate.
+Qed.
+Print Assumptions C04_sound_live.
+
+(** The report never fires for a label some live branch... is not claimed in general: the "live" refinement of the general
     clause inherits the dead-code classes of C12 and is REFUTED on the faithful model by [vector(1) or foo]:
     the engine (and [Sem]) returns the foo series, whose only consistent branch is marked dead (K2). *)
 Definition ex_foo : expr := ESel [{| m_type := MEq; m_name := "__name__"; m_value := "foo" |}].
@@ -141,11 +167,11 @@ Qed.
 Definition ex_sum : expr := EAgg ASum false ["job"] None ex_foo.
 
 Example C04_nonvacuous :
-  wf ex_sum = true /\ Sem ex_db ex_sum (RVec [[("job", "j")]]) /\
+  wf ex_sum = true /\ novc ex_sum = true /\ Sem ex_db ex_sum (RVec [[("job", "j")]]) /\
   (exists s, walk_node (fun _ _ => nan) (fun _ _ => nan) ex_sum = [s] /\
              template_missing [s] [] ["job"; "instance"] = ["instance"]).
 Proof.
-  split; [reflexivity|]. split.
+  split; [reflexivity|]. split; [reflexivity|]. split.
   - apply (SemNode ex_db ex_sum [RVec ex_db] (RVec [[("job", "j")]])); [|vm_compute; reflexivity].
     constructor; [apply sem_ex_foo | constructor].
   - eexists. split; [vm_compute; reflexivity | vm_compute; reflexivity].
